@@ -312,7 +312,7 @@ def generate(rng, seed, run, tier, focus='C11', xmode=False):
             if info['kind'] == 'lat':
                 what = 'lat'
             t = target('pickle', '.pkl')
-            events.append([kind, nd, s, what, t, rng.choice([0, 1, 2, 3, 4, 5])])
+            events.append([kind, nd, s, what, t, rng.choice([0, 1, 2, 3, 4, 5, 6])])
             files[t] = dict(info, form='pk_' + what)
         elif kind == 'txt_w':
             frmat = rng.choice(TEXT_FORMATS)
